@@ -57,7 +57,7 @@ def be_value(E, st, zs):
             first = zs.arg(0)
             if z3.is_app(first) and first.decl().kind() == z3.Z3_OP_SEQ_UNIT:
                 rest = zs.arg(1) if zs.num_args() == 2 else z3.Concat(*[zs.arg(i) for i in range(1, zs.num_args())])
-                st.fact(t == ops.byte_int(E, st, first.arg(0)) * ops.pow2(E, st, 8 * z3.Length(rest)) + BE(rest))
+                st.fact(t == ops.byte_int(E, st, first.arg(0)) * ops.pow2(E, st, 8 * seq_length(E, st, rest)) + BE(rest))
                 st.fact(BE(rest) >= 0)
     if E.options.get('int_lemmas') is not None:
         # opt-in ground facts of base-256 positional notation: range by length, lower bound by a non-zero leading
@@ -195,7 +195,7 @@ def b_len(E, st, args, kw):
         h = st.heap[v.oid]
         if h.kind in ('list', 'dict'):
             return val(st, len(h.items))
-        if h.kind == 'acc':
+        if h.kind in ('acc', 'alist'):
             return val(st, h.items[0])
         if h.kind == 'bytearray':
             return b_len(E, st, [h.items], kw)
@@ -239,7 +239,15 @@ def seq_length(E, st, t):
             return z3.IntVal(1)
         elif k == z3.Z3_OP_SEQ_EMPTY:
             return z3.IntVal(0)
+        elif k == z3.Z3_OP_UNINTERPRETED and t.decl().name() in SEQ_LEN_ARG:
+            # an uninterpreted byte-string symbol one of whose arguments IS its length (when non-negative), e.g. tape(id, pos, n)
+            n = t.arg(SEQ_LEN_ARG[t.decl().name()])
+            if E.implied(st, n >= 0):
+                return z3.simplify(n)
     return z3.Length(t)
+
+
+SEQ_LEN_ARG = {}      # name of an uninterpreted Seq-valued function -> index of the argument that equals its length
 
 
 def object_len(E, st, v, h):
@@ -389,6 +397,21 @@ def b_bool(E, st, args, kw):
     return val(st, t if isinstance(t, bool) else mk_bool(t))
 
 
+def byte_unit(E, st, zx, concrete=False):
+    """Unit(Int2BV(zx, 8)) for an integer term known to lie in 0..255 on this path; compound terms are named first
+    (see _bytes_from_iter)"""
+    if not concrete and z3.is_app(zx) and zx.num_args() > 0 and zx.decl().kind() != z3.Z3_OP_UNINTERPRETED:
+        names = E.__dict__.setdefault('_byte_names', {})
+        if zx.get_id() not in names:
+            names[zx.get_id()] = (E.fresh(INT, 'byte'), zx)
+        v = names[zx.get_id()][0]
+        st.fact(v == zx)
+        zx = v
+    if not concrete:
+        E.__dict__.setdefault('_ranged_bytes', set()).add(zx.get_id())
+    return z3.Unit(z3.Int2BV(zx, 8))
+
+
 def _bytes_from_iter(E, st, items):
     outs = []
     units = []
@@ -406,10 +429,16 @@ def _bytes_from_iter(E, st, items):
         if not isinstance(x, int) and z3.is_app(zx) and zx.num_args() > 0 and zx.decl().kind() != z3.Z3_OP_UNINTERPRETED:
             # name a compound byte value: int->bitvector conversion of an arithmetic term is expensive for z3, while
             # equal terms then meet as equal variables (exact: v == the term, on this path)
-            v = E.fresh(INT, 'byte')
+            names = E.__dict__.setdefault('_byte_names', {})
+            if zx.get_id() not in names:
+                names[zx.get_id()] = (E.fresh(INT, 'byte'), zx)      # one name per term and proof
+            v = names[zx.get_id()][0]
             cur.fact(v == zx)               # definition of a fresh name (conservative; survives spec-clause evaluation)
             zx = v
         units.append(z3.Unit(z3.Int2BV(zx, 8)))
+        if not isinstance(x, int):
+            # this byte term only exists on paths below `ok` (0 <= zx <= 255): byte_int() may read it back as zx
+            E.__dict__.setdefault('_ranged_bytes', set()).add(zx.get_id())
         if not isinstance(x, int) and not E.options.get('int_bytes'):
             # ground instance of "int -> byte -> int is the identity on 0..255" (z3 is slow to find it by bit-blasting)
             cur.fact(z3.Implies(z3.And(zx >= 0, zx <= 255), z3.BV2Int(z3.Int2BV(zx, 8)) == zx))
@@ -512,7 +541,19 @@ def b_range(E, st, args, kw):
         return val(st, SRange(args[0], args[1]))
     if isinstance(args[2], int) and args[2] > 0:
         return val(st, SRange(args[0], args[1], args[2]))
-    raise Unsupported('range with symbolic or non-positive step')
+    if not isinstance(args[2], int):
+        # symbolic step: ValueError when zero; supported when the path condition makes it positive (step kept as a z3 term)
+        zs = zint(args[2])
+        outs = []
+        zero, nz = E.split(st, zs == 0)
+        if zero is not None:
+            outs += rz(zero, ValueError, 'range() arg 3 must not be zero')
+        if nz is not None:
+            if not E.implied(nz, zs > 0):
+                raise Unsupported('range with a possibly negative symbolic step')
+            outs += val(nz, SRange(args[0], args[1], zs))
+        return outs
+    raise Unsupported('range with non-positive step')
 
 
 def _minmax(E, st, args, kw, is_min):
@@ -1394,6 +1435,31 @@ def container_attr(E, st, ref, h, attr):
             st.writes.append((ref.oid, '<items>'))
             return val(st, None)
         return BuiltinV('list.' + attr, lm)
+    if h.kind == 'alist':
+        if attr != 'append':
+            raise Unsupported('counted list .%s' % attr)
+
+        def alm(E, st, a, k):
+            from .contracts import eval_clause
+            h = st.heap[ref.oid]
+            if len(a) != 1 or k:
+                return rz(st, TypeError, 'append() takes exactly one argument')
+            hook = h.fields.get('__hook__', '')
+            for cl in (E.options.get('on_append_instances') or {}).get(hook, []):
+                # lemma calls at the append (only calls of registered, separately proved spec lemmas)
+                from .contracts import parse_clause, _as_z3
+                import ast as _ast
+                node = parse_clause(cl)
+                if not (isinstance(node, _ast.Call) and _ast.unparse(node.func) in E.registry.lemmas):
+                    raise Unsupported('lemma instance %r is not a call of a registered spec lemma' % cl)
+                st.assume(_as_z3(eval_clause(E, cl, st, {'item': a[0]})))
+            for cl in (E.options.get('on_append') or {}).get(hook, []):
+                g = eval_clause(E, cl, st, {'item': a[0]})
+                E.oblige(st, g, 'on_append', 'append to the %s list' % hook, {'clause': cl})
+            h.items = [mk_int(zint(h.items[0]) + 1)]
+            st.writes.append((ref.oid, '<items>'))
+            return val(st, None)
+        return BuiltinV('list.append', alm)
     if h.kind == 'acc':
         # append-only accumulator abstraction of a list of byte strings: items = [count, last, joined]
         if attr != 'append':
@@ -1527,6 +1593,9 @@ def x_struct_pack(E, st, a, k):
         if ok is None:
             return outs
         cur = ok
+        if size == 1 and E.options.get('int_bytes'):
+            parts.append(byte_unit(E, cur, x))
+            continue
         parts.append(i2osp_value(E, cur, x, size, little=(order == 'little')))
     outs.append(('val', cur, mk_bytes(parts[0] if len(parts) == 1 else z3.Concat(*parts))))
     return outs
